@@ -233,11 +233,14 @@ class _FindChangeDependencies:
         for resource in changes.get_changed_resources():
             if resource is None:
                 continue
-            if resource in self.changed_resources:
-                return True
             for changed in self.changed_resources:
-                if resource.is_folder() and resource.contains(changed):
-                    return True
-                if changed.is_folder() and changed.contains(resource):
+                if changed is not None and self._overlap(resource.path, changed.path):
                     return True
         return False
+
+    def _overlap(self, path1, path2):
+        # compared as paths: over a history the same path can be a file at
+        # one time and a folder at another
+        if path1 == path2 or path1 == "" or path2 == "":
+            return True
+        return path1.startswith(path2 + "/") or path2.startswith(path1 + "/")
